@@ -5,16 +5,32 @@ walks the allocator bookkeeping through hook H2, plus threads that assemble/buil
  * in the `tsan` build  -> ThreadSanitizer reports are collected from log files, de-duplicated and judged here;
  * in the `asan` build  -> the driver's own C09-style monitors (owner stamps, interval set at the API boundary,
                            query/statistics bounds, H2, quiescent accounting, byte equality of generated code).
-Host information is initialised by the driver's main thread first: that is the property's precondition."""
+Host information is initialised by the driver's main thread first: that is the property's precondition.
+
+Round 11 additions (all in both flavours unless noted): private threads that create/use/destroy their OWN JitAllocator and
+JitRuntime (dual mapping, immediate release, custom pattern; reference programs added and compared byte for byte, compiled
+functions executed); reader threads (query/statistics only, no harness lock); sentinel threads owning file descriptors;
+monitors on the process-wide resources behind the API - close() through --wrap (a descriptor AsmJit closes must be open
+and not a harness thread's), asan flavour: mmap()/munmap() through --wrap (only what AsmJit mapped may be unmapped,
+nothing stays mapped at the end); emitter threads with validation on, InstAPI queries, a64/x86-32 Builder, constant
+pools, jump annotations, named labels, a second section with cross-section fixups and relocations, host CPU features;
+JitRuntime::add() programs whose address-table slots are dropped (real shrink by >= 1 granule under contention); empty
+block policy and REQUESTED fill pattern in the quiescent checks; drv_hostinit also races the first use of VirtMem::info(),
+large_page_size(), allocator defaults and the first dual-mapped block."""
 import glob
 import json
 import os
 import re
 import shutil
+import threading
 
 from vlib import build, common
 
-DUAL, MULTI, FILL, IMM, LARGE = 1, 2, 4, 8, 0x20
+DUAL, MULTI, FILL, IMM, LARGE, CUSTOM = 1, 2, 4, 8, 0x20, 0x10000000
+
+# every close() (and in the asan flavour every mmap()/munmap()) issued by libasmjit.a goes through the driver's monitors
+WRAP_CLOSE = ["-Wl,--wrap=close"]
+WRAP_MAPS = ["-Wl,--wrap=mmap", "-Wl,--wrap=munmap"]
 
 # (allocator options, runtime allocator options, profile, granularity)
 CONFIGS = [
@@ -27,12 +43,14 @@ CONFIGS = [
     (FILL, 0, 1, 256),
     (MULTI | IMM, DUAL | FILL, 3, 0),
     (LARGE | FILL, LARGE, 0, 0),      # large pages are unavailable here: exercises the fallback path
+    (FILL | CUSTOM | IMM, DUAL | IMM, 1, 0),   # custom fill pattern: memory is compared with the REQUESTED pattern
 ]
 THREAD_PLANS = [[2, 8, 16], [4, 12, 3], [8, 16, 2], [16, 5, 8], [3, 8, 16], [6, 2, 10], [16, 16, 4], [2, 3, 7]]
 
 
 def make_jobs(tier, seed, scale):
     rng = common.Rng(seed * 1000003 + 11)
+    side = common.Rng(seed * 1000003 + 12)     # picks of dimensions added later: the main stream stays as it was
     jobs = []
     if tier == "quick":
         reps = {"tsan": 6, "asan": 6}
@@ -48,16 +66,22 @@ def make_jobs(tier, seed, scale):
         for i in range(reps[flavour]):
             k = i + (3 if flavour == "asan" else 0)
             opt, rtopt, prof, gran = CONFIGS[k % len(CONFIGS)]
+            if flavour == "asan" and i == reps[flavour] - 1:
+                opt, rtopt, prof, gran = CONFIGS[9]     # the custom-pattern configuration is part of every run
             plan = list(THREAD_PLANS[(k + rng.below(len(THREAD_PLANS))) % len(THREAD_PLANS)])
             if tier != "quick":
                 plan.append(rng.choice([2, 4, 8, 16]))
                 if i >= len(CONFIGS):   # later repetitions: random pairing of options / profile
                     opt, rtopt = rng.below(16) | (LARGE if rng.chance(1, 6) else 0), rng.below(16)
+                    if (opt & FILL) and side.chance(1, 3):
+                        opt |= CUSTOM
                     prof = rng.below(4)
                     gran = rng.choice([0, 0, 128, 256])
             argv = ["--seed", str(rng.next() % (1 << 40)), "--threads", ",".join(map(str, plan)), "--ops", str(ops),
                     "--options", str(opt), "--rt-options", str(rtopt), "--profile", str(prof), "--granularity", str(gran),
                     "--emit-threads", str(emit_threads), "--emit-iters", str(emit_iters),
+                    "--private-threads", str(3 if tier == "quick" else 4), "--private-iters", str(max(4, int((60 if tier == "quick" else 100) * scale))),
+                    "--reader-threads", "2", "--sentinel-threads", "2", "--fill-pattern", "0x5AA5C33C" if opt & CUSTOM else "0",
                     "--noise", str(1 + rng.below(3)), "--block-size", str(rng.choice([65536, 65536, 131072]))]
             jobs.append({"flavour": flavour, "argv": argv})
     return jobs
@@ -197,6 +221,19 @@ def judge_report(rep):
 
 # -- running --------------------------------------------------------------------------------------------------
 
+# measured counters of the dimensions added in round 11 (summed over jobs)
+NEW_COUNTERS = ("private_allocators", "private_runtimes", "private_allocs", "private_dual_allocs", "private_blocks_cycled",
+                "private_adds_compared", "private_compiled_calls", "private_bytes_verified", "reader_queries", "reader_query_hits",
+                "reader_statistics", "sentinel_rounds", "closes_seen", "closes_seen_concurrent", "maps_made", "unmaps_made",
+                "rt_near_call_adds", "rt_real_shrinks", "emit_validated", "emit_api_probes", "emit_with_host_features",
+                "emit_multi_section", "emit_const_pool", "empty_policy_checks")
+# every single job must have observed these (a job in which a monitor saw nothing says nothing about that job's schedule)
+PER_JOB_REQUIRED = {
+    "tsan": ("private_allocators", "private_dual_allocs", "reader_queries", "closes_seen_concurrent", "emit_api_probes"),
+    "asan": ("private_allocators", "private_dual_allocs", "reader_queries", "closes_seen_concurrent", "emit_api_probes", "maps_made", "unmaps_made",
+             "sentinel_rounds"),
+}
+
 def run_job(exe, job, logroot, idx):
     argv = job["argv"]
     env = {}
@@ -222,9 +259,11 @@ def run_job(exe, job, logroot, idx):
 def run(tier, args):
     chk = common.Check("C11", tier)
     exe = {
-        "tsan": build.build_driver("drv_threads", "tsan"),
-        "asan": build.build_driver("drv_threads", "asan", extra_cflags=["-DVERIF_COUNT_LOCKS"]),
+        "tsan": build.build_driver("drv_threads", "tsan", extra_ldflags=WRAP_CLOSE),
+        "asan": build.build_driver("drv_threads", "asan", extra_cflags=["-DVERIF_COUNT_LOCKS", "-DVERIF_TRACK_MAPS"],
+                                   extra_ldflags=WRAP_CLOSE + WRAP_MAPS),
     }
+    hexe = build.build_driver("drv_hostinit", "plain")
     if args.replay:
         rp = json.load(open(args.replay))
         jobs = [{"flavour": rp["case"]["flavour"], "argv": rp["case"]["argv"]}] * 5   # schedules vary: try 5 times
@@ -234,10 +273,21 @@ def run(tier, args):
     logroot = os.path.join(build.CACHE, "c11-run-%d" % os.getpid())
     shutil.rmtree(logroot, ignore_errors=True)
     os.makedirs(logroot)
+    # concurrent FIRST use (see below) runs in forked children of its own driver, next to the thread jobs
+    hres = {}
+
+    def host_job():
+        try:
+            hres["r"] = common.run_child([hexe, "--trials", str(400 if tier == "quick" else 6000), "--seed", str(chk.seed)], timeout=2400)
+        except common.HarnessError as e:
+            hres["e"] = e
+    hthread = threading.Thread(target=host_job)
+    hthread.start()
     try:
         results = common.parallel_map(lambda ij: run_job(exe, ij[1], logroot, ij[0]), list(enumerate(jobs)))
     finally:
         shutil.rmtree(logroot, ignore_errors=True)
+        hthread.join()
 
     ops, emit, pairs = {}, {}, {}
     tot = {}
@@ -251,6 +301,7 @@ def run(tier, args):
     tsan_asmjit_keys = {}
     runs = {"tsan": 0, "asan": 0}
     zero_jobs = 0
+    starved = []
 
     for res in results:
         job = res["job"]
@@ -306,8 +357,13 @@ def run(tier, args):
             pairs[k] = pairs.get(k, 0) + v
         for k in ("overlap_events", "emit_log_compared", "bytes_verified", "fill_checked", "fn_calls", "handovers", "yields", "sleeps",
                   "h2_walks_quiescent", "h2_walks_concurrent", "quiescent_checks", "interval_checks", "lock_acquisitions",
-                  "reference_programs", "reference_programs_ok"):
+                  "reference_programs", "reference_programs_ok") + NEW_COUNTERS:
             tot[k] = tot.get(k, 0) + d[k]
+        if d.get("custom_pattern") and d.get("fill_checked"):
+            tot["custom_pattern_fill_checks"] = tot.get("custom_pattern_fill_checks", 0) + d["fill_checked"]
+        for k in NEW_COUNTERS:
+            if k in PER_JOB_REQUIRED.get(fl, ()) and not d[k]:
+                starved.append("%s=0 in %s job %s" % (k, fl, job["argv"][:8]))
         for k in ("max_blocks", "max_live"):
             tot[k] = max(tot.get(k, 0), d[k])
         if sum(d["ops"].values()) == 0 or not d["warm"]:
@@ -325,8 +381,9 @@ def run(tier, args):
 
     # concurrent FIRST use: threads of a fresh process that create their own JitRuntime at the same moment must all see the
     # complete host description (functional monitor in forked children; the lock-free initialisation is not given to TSan)
-    hexe = build.build_driver("drv_hostinit", "plain")
-    rc, out, err = common.run_child([hexe, "--trials", str(400 if tier == "quick" else 6000), "--seed", str(chk.seed)], timeout=1800)
+    if "e" in hres:
+        raise hres["e"]
+    rc, out, err = hres["r"]
     try:
         hostinit = json.loads(out.decode().strip().splitlines()[-1])
     except (ValueError, IndexError):
@@ -370,6 +427,7 @@ def run(tier, args):
         "noise_sleeps": tot.get("sleeps", 0),
         "max_live_spans": tot.get("max_live", 0),
         "max_blocks": tot.get("max_blocks", 0),
+        "added_dimensions": dict((k, tot.get(k, 0)) for k in NEW_COUNTERS + ("custom_pattern_fill_checks",)),
         "exhaustive": False,
         "jobs": len(jobs),
     })
@@ -379,7 +437,13 @@ def run(tier, args):
         "TSan (gcc -fsanitize=thread, halt_on_error=0) only sees interleavings that happened; reports are keyed by the outermost asmjit "
         "function of each stack; reports with no asmjit frame in any stack are treated as harness bugs (exit 2) unless asmjit reports exist too",
         "reference bytes of every program are produced by the main thread before threads start (this also runs any first-use code of the emitters once)",
-        "reset() and the destructor are not documented thread-safe and are only called single-threaded",
+        "reset() and the destructor are not documented thread-safe and are only called by the thread that owns the object (shared objects: main thread; "
+        "private objects: the thread that created them)",
+        "process-wide resources: every close() issued by libasmjit.a is intercepted with the linker's --wrap and must name an open descriptor not owned by a "
+        "harness thread (checked while threads run); asan flavour: mmap()/munmap() likewise - AsmJit may only unmap what it mapped, nothing stays mapped at the end",
+        "the tsan flavour runs without the harness interval set (its mutex would order all worker operations) and with reader threads that take no harness lock",
+        "reference programs with relocations are relocated to a fixed base; InstAPI answers (validate, query_rw_info, query_features, name lookups) are compared "
+        "as one hash per (architecture, variant)",
         "overlap in time is measured at the API boundary (call..return); it shows contention, not which interleaving happened inside the lock",
     ]
 
@@ -396,6 +460,14 @@ def run(tier, args):
         raise common.HarnessError("%d job(s) inconclusive: %s" % (len(inconclusive), inconclusive[0][:300]))
     if inconclusive:
         chk.note("%d job(s) ended without a usable summary (crash/hang after the reported violations)" % len(inconclusive))
+    if not chk.violations and not args.replay:
+        missing = [k for k in NEW_COUNTERS + ("custom_pattern_fill_checks",) if not tot.get(k)]
+        for k in ("vm_values_compared", "dual_allocs_in_racing_threads", "dual_mapping_works"):
+            if not hostinit.get(k):
+                missing.append("hostinit." + k)
+        if missing or starved:
+            chk.finish()
+            raise common.HarnessError("dimension(s) without a single observation: %s %s" % (missing, starved[:3]))
     if not chk.violations and (zero_jobs or runs["tsan"] < min(5, len(jobs)) and not args.replay):
         chk.finish()
         raise common.HarnessError("too few events: %d jobs without operations, %d TSan repetitions" % (zero_jobs, runs["tsan"]))
